@@ -224,7 +224,7 @@ def check_random(spec, ctx):
 # hash law
 
 CLASSES = ["Term", "Tag", "Feature", "Note", "SoundEvent", "SoundEventAnnotation", "SoundEventPrediction", "ClipPrediction"]
-FLOATS = [0.0, -0.0, 1.0, 0.3, 0.1 + 0.2, 0.30000000000000004, 1e-12, 1 + 1e-12, 2.5, 1e300]
+FLOATS = [0.0, -0.0, 1.0, 0.3, 0.1 + 0.2, 0.30000000000000004, 1e-12, 1 + 1e-12, 2.5, 1e300, "nan", "nan"]  # "nan": a missing measurement (NaN travels as text in the JSON spec)
 
 
 TERM_EXTRA = {
@@ -289,7 +289,9 @@ def _make(spec, side):
         raise ValueError("malformed spec")
     term = data.Term(name=spec["name" + s], label=spec["label" + s], **{k: v for k, v in extra.items() if v is not None}, **{k: v for k, v in more})
     f = spec["f" + side[-1]]
-    if side == "b" and spec["int_b"] and float(int(f)) == f and abs(f) < 1e9:
+    if isinstance(f, str):
+        f = float(f)
+    if side == "b" and spec["int_b"] and f == f and float(int(f)) == f and abs(f) < 1e9:
         f = int(f)
     payload = spec["payload" + s]
     rec = data.Recording(uuid=str(uuidlib.UUID(int=99)), path="r.wav", duration=1.0 + payload, channels=1, samplerate=8000)
@@ -305,13 +307,13 @@ def _make(spec, side):
     created = "2020-01-01T12:00:00" if tz is None else f"2020-01-01T{12 + tz:02d}:00:00{'+' if tz >= 0 else '-'}{abs(tz):02d}:00"
     if cls == "Note":
         return data.Note(uuid=uid, message=spec["value" + s], created_on=created, is_issue=bool(payload % 2))
-    se = data.SoundEvent(uuid=uid, recording=rec, geometry=data.TimeStamp(coordinates=abs(f) if abs(f) < 1e9 else 1.0), features=[data.Feature(term=term, value=1.0)] if payload else [])
+    se = data.SoundEvent(uuid=uid, recording=rec, geometry=data.TimeStamp(coordinates=abs(f) if (f == f and abs(f) < 1e9) else 1.0), features=[data.Feature(term=term, value=1.0)] if payload else [])
     if cls == "SoundEvent":
         return se
     if cls == "SoundEventAnnotation":
         return data.SoundEventAnnotation(uuid=uid, sound_event=se, created_on=created, tags=[data.Tag(term=term, value="x")] if payload else [])
     if cls == "SoundEventPrediction":
-        return data.SoundEventPrediction(uuid=uid, sound_event=se, score=min(1.0, abs(f)) if abs(f) <= 1 else 0.5)
+        return data.SoundEventPrediction(uuid=uid, sound_event=se, score=min(1.0, abs(f)) if (f == f and abs(f) <= 1) else 0.5)
     clip = data.Clip(uuid=str(uuidlib.UUID(int=98)), recording=rec, start_time=0.0, end_time=1.0)
     return data.ClipPrediction(uuid=uid, clip=clip, tags=[data.PredictedTag(tag=data.Tag(term=term, value="x"), score=0.5)] if payload else [])
 
